@@ -17,6 +17,11 @@
 //	    operator of member i+1). The position in the list is the message's identity (seq).
 //	    `st=<state index> can=<CanTransition> n=<history size> r0=… r5=<receivedMessages[T] as
 //	    sender.seq>`
+//	pub <n> <self> <dq> <seats> <session> <msgs>
+//	    result publication (dkg.Publish): resultSigningState over a result group in which <dq> are
+//	    disqualified; <msgs> = comma list of `kind.sender.operator.session.sigoperator` delivered to
+//	    Receive (sigoperator = whose public key the signature message embeds).
+//	    `can=<CanTransition> n=<history size, all types> r5=<receivedMessages as sender.seq>`
 //	run <n> <t> <excluded> <seed> <inject>
 //	    REAL DKG run of all non-excluded members (+ optionally the excluded ones) — see run.go.
 package main
@@ -231,6 +236,136 @@ func execRecv(f []string) (string, string) {
 	return fmt.Sprintf("st=%d can=%d n=%d %s", idx, can, total, strings.Join(rs, " ")), tag
 }
 
+func execPub(f []string) (string, string) {
+	n, self := hx.Atoi(f[1]), hx.Atoi(f[2])
+	dq := hx.ParseInts(f[3])
+	seats := hx.ParseInts(f[4])
+	sess := hx.Atoi(f[5])
+	g := group.NewGroup(n/2, n)
+	for _, e := range indexes(dq) {
+		g.MarkMemberAsDisqualified(e)
+	}
+	st := dkg.VerifC07NewPublicationState(dkgrun.Logger, group.MemberIndex(self), g, dkgrun.Validator(seats), session(sess))
+	seqOf := map[interface{}]int{}
+	tags := map[string]bool{}
+	base := dkg.VerifC07Base(st)
+	count := func() int {
+		t := 0
+		for k := 0; k < dkg.VerifC07KindCount; k++ {
+			t += len(base.GetAllReceivedMessages(dkg.VerifC07MessageType(k)))
+		}
+		return t + len(base.GetAllReceivedMessages("verif/foreign"))
+	}
+	for seq, ev := range hx.SplitList(f[6]) {
+		p := strings.Split(ev, ".")
+		kind, sender, op, q, sigop := hx.Atoi(p[0]), group.MemberIndex(hx.Atoi(p[1])), hx.Atoi(p[2]), hx.Atoi(p[3]), hx.Atoi(p[4])
+		var payload interface{}
+		typ := "verif/foreign"
+		if kind < dkg.VerifC07KindCount {
+			pm := dkg.VerifC07NewMessage(kind, sender, session(q), dkgrun.OperatorKey(sigop))
+			payload, typ = pm, pm.Type()
+		} else {
+			payload = &foreignPayload{sender}
+		}
+		seqOf[payload] = seq
+		before := count()
+		if err := st.Receive(&netMsg{payload: payload, key: dkgrun.OperatorKey(op), typ: typ, seq: uint64(seq)}); err != nil {
+			return "err:receive", "pub+recverr"
+		}
+		if count() > before {
+			tags["padmit"] = true
+		} else {
+			tags["preject"] = true
+		}
+	}
+	recvd := dkg.VerifC07ReceivedMessages(base, dkg.VerifC07KindResultSignature)
+	var parts []string
+	for _, pm := range recvd {
+		parts = append(parts, fmt.Sprintf("%d.%d", pm.(interface{ SenderID() group.MemberIndex }).SenderID(), seqOf[pm]))
+	}
+	can := 0
+	if st.CanTransition() {
+		can = 1
+		tags["pcan"] = true
+	}
+	tag := "pub"
+	var ts []string
+	for t := range tags {
+		ts = append(ts, t)
+	}
+	sort.Strings(ts)
+	for _, t := range ts {
+		tag += "+" + t
+	}
+	return fmt.Sprintf("can=%d n=%d r5=%s", can, count(), hx.JoinStrs(parts)), tag
+}
+
+func genPub(r *hx.Rng) string {
+	n := r.Range(2, 7)
+	self := r.Range(1, n)
+	var dq []int
+	for m := 1; m <= n; m++ {
+		if m != self && r.Chance(1, 4) {
+			dq = append(dq, m)
+		}
+	}
+	seats := make([]int, n)
+	ops := r.Range(1, n)
+	for i := range seats {
+		seats[i] = 1 + r.Intn(ops)
+	}
+	if r.Chance(2, 3) {
+		for i := range seats {
+			seats[i] = i + 1
+		}
+	}
+	sess := r.Intn(3)
+	var msgs []string
+	complete := r.Bool()
+	for m := 1; m <= n; m++ {
+		if complete && m != self {
+			msgs = append(msgs, fmt.Sprintf("5.%d.%d.%d.%d", m, seats[m-1], sess, seats[m-1]))
+		}
+	}
+	for k := r.Range(0, 12); k > 0; k-- {
+		kind := 5
+		sender := r.Range(1, n)
+		op := seats[sender-1]
+		sigop := op
+		q := sess
+		switch r.Intn(12) {
+		case 0:
+			kind = r.Intn(7) // another message type / foreign payload
+		case 1:
+			q = (sess + 1) % 3
+		case 2:
+			sigop = r.Intn(n + 2) // signed with another key than the network identity
+		case 3:
+			op = r.Intn(n + 2)
+			sigop = op
+		case 4:
+			sender = self
+			op = seats[self-1]
+			sigop = op
+		case 5:
+			if len(dq) > 0 {
+				sender = hx.Pick(r, dq)
+				op = seats[sender-1]
+				sigop = op
+			}
+		case 6:
+			sender = hx.Pick(r, []int{0, n + 1, 255})
+		}
+		msgs = append(msgs, fmt.Sprintf("%d.%d.%d.%d.%d", kind, sender, op, q, sigop))
+	}
+	p := r.Perm(len(msgs))
+	q := make([]string, len(msgs))
+	for i, j := range p {
+		q[i] = msgs[j]
+	}
+	return fmt.Sprintf("pub %d %d %s %s %d %s", n, self, hx.JoinInts(dq), hx.JoinInts(seats), sess, hx.JoinStrs(q))
+}
+
 func exec(op string) (string, string) {
 	f := strings.Fields(op)
 	switch {
@@ -240,6 +375,8 @@ func exec(op string) (string, string) {
 		return execParties(f)
 	case len(f) == 7 && f[0] == "recv":
 		return execRecv(f)
+	case len(f) == 7 && f[0] == "pub":
+		return execPub(f)
 	case len(f) == 6 && f[0] == "run":
 		return execRun(f)
 	}
@@ -436,7 +573,9 @@ func gen(r *hx.Rng, n int, tier string) []string {
 		}
 	}
 	for i := 0; i < n; i++ {
-		switch r.Intn(10) {
+		switch r.Intn(12) {
+		case 10, 11:
+			ops = append(ops, genPub(r))
 		case 0, 1:
 			ops = append(ops, genConv(r))
 		case 2, 3:
